@@ -408,7 +408,8 @@ def alter_table(ds: synth.DataSet, rng: numpy.random.Generator, n_redundant: int
     nk = ds.static_table.shape[1]
     fac = 1.0 + rng.uniform(-0.06, 0.06, size=nk)
     tilt = rng.uniform(-0.3, 0.3, size=nk)
-    ds2.static_table = ds.static_table * fac[None, :] * (ds.volumes[0] / ds.volumes)[:, None] ** tilt[None, :]
+    sv = numpy.asarray(ds.volumes if ds.static_volumes is None else ds.static_volumes, dtype=float)     # the table's own rows
+    ds2.static_table = ds.static_table * fac[None, :] * (sv[0] / sv)[:, None] ** tilt[None, :]
     if n_redundant:
         system = ds.settings["elast"]["settings"]["symmetry"]["system"]
         ni = nk - n_redundant
@@ -428,6 +429,7 @@ def plan(ctx: Ctx, n: int) -> List[dict]:
     for i, f in enumerate(forced):
         if f["system"] not in (None, "triclinic") and i % 3 == 0: f["redundant"] = "noisy"
         if i % 4 == 1: f["static_mesh"] = "shifted"
+        if i % 6 == 3: f["static_mesh"] = ["fewer", "more"][(i // 6) % 2]      # elast.dat with its own N
         # every fifth: the rows of the static table (and of its lattice block) are not listed by decreasing volume
         if i % 5 == 2: f["static_rows"] = ["shuffled", "increasing"][(i // 5) % 2]
     out = forced[:n]
